@@ -47,6 +47,19 @@ def build(P):
                 ents.append("- 7 %s 3 %s - 2" % (o1, o2))
         for k, ch in enumerate(chunks(ents, 400)):
             yield ("operator-pairs", [repl_case("C02-pairs-%d" % k, ch, meta=dict(units=ch))])
+        # 1b. value grid: every binary operator on every ordered pair of a small typed value pool (equal INTEGER / REAL values included)
+        pool_v = ["0", "1", "2", "- 1", "7", "0.0", "1.0", "2.0", "- 1.0", "1.5", "2.5", "0.5", "TRUE", "FALSE", "'a'", "'b'", "'a'", '"a"', '"ab"', '""', "1/1/2020", "2/1/2020", "31/12/2019"]
+        ents = []
+        for o in BINOPS:
+            for a in pool_v:
+                for b in pool_v:
+                    ents.append("%s %s %s" % (a, o, b))
+        ents = list(dict.fromkeys(ents))
+        if tier == "quick":
+            keep = [e for e in ents if r.random() < 0.45]
+            ents = keep
+        for k, ch in enumerate(chunks(ents, 600)):
+            yield ("value-grid", [repl_case("C02-grid-%d" % k, ch, meta=dict(units=ch))])
         # 2. DIV / MOD laws on a grid and at the 64-bit boundary
         grid = range(-40, 41) if tier == "thorough" else list(range(-12, 13)) + [-40, 40, 37, -37]
         bnd = [9223372036854775807, 9223372036854775806, 4611686018427387904, 3037000500, 2147483648, 4294967296]
